@@ -243,6 +243,9 @@ impl Stream for Src {
         }
         r
     }
+    fn size_hint(&self) -> (usize, Option<usize>) {
+        self.0.size_hint()
+    }
 }
 
 fn terminal<S>(s: S, term: Term) -> BoxFut
